@@ -3,7 +3,7 @@
 import json, os, shutil, sys
 name, status, note = sys.argv[1], sys.argv[2], sys.argv[3]
 import os as _os
-src = next(d for d in (f'/tmp/seeded/{name}', f'/tmp/seeded2/{name}', f'/tmp/seeded3/{name}', f'/tmp/seeded4/{name}') if _os.path.isdir(d))
+src = next(d for d in (f'/tmp/seeded/{name}', f'/tmp/seeded2/{name}', f'/tmp/seeded3/{name}', f'/tmp/seeded4/{name}', f'/tmp/seeded5/{name}') if _os.path.isdir(d))
 dst = f'/verif/seeded/{name}'
 ver = json.load(open(f'{src}/verified.json'))
 assert ver['verified'], ver
